@@ -147,7 +147,8 @@ def make_search(mido, depth, base=(0, 0)):
     def ops(s, hist):
         f = s['f']
         out = [('add_track',), ('add_track_named',), ('append_track',),
-               ('tpb',), ('assign_tracks',), ('enter',), ('exit',)]
+               ('assign_tracks',), ('enter',), ('exit',)]
+        out += [('tpb', v) for v in (480, 96, 0) if v != f.ticks_per_beat]
         for t in (0, 1, 2):
             if t != f.type:
                 out.append(('type', t))
@@ -266,9 +267,10 @@ def make_search(mido, depth, base=(0, 0)):
         elif k == 'set_tempo_value':
             f.tracks[op[1]][0].tempo = 1000000
         elif k == 'tpb':
-            # 480 -> 96 -> 0 (the smallest value of the division field, what
-            # a damaged file may carry) -> 480
-            f.ticks_per_beat = {480: 96, 96: 0}.get(f.ticks_per_beat, 480)
+            # 480 (default), 96, or 0 (the smallest value of the division
+            # field, what a damaged file may carry)
+            f.ticks_per_beat = op[1] if len(op) > 1 else (
+                96 if f.ticks_per_beat != 96 else 480)
         elif k == 'type':
             f.type = op[1]
         elif k == 'assign_tracks':
